@@ -1,8 +1,10 @@
 mod check_c09;
+mod check_c10;
 mod check_c12;
 mod check_c13;
 mod check_c17;
 mod check_c18;
+mod check_c20;
 mod check_sched;
 mod corpus;
 mod cmd;
@@ -11,6 +13,7 @@ mod linspec;
 mod model;
 mod model_step;
 mod net;
+mod pair;
 mod props;
 mod props_sched;
 mod report;
@@ -41,7 +44,7 @@ fn check_seq(prop: &'static str, tier: Tier) -> CheckOutcome {
     let mut mach: Option<String> = None;
     let mut distinct_outcomes = 0u64;
     for cfg in &cfgs {
-        let rep = seq::explore_seq(cfg, nthreads(), 0);
+        let rep = if prop == "C19" { pair::explore_pair(cfg, nthreads()) } else { seq::explore_seq(cfg, nthreads(), 0) };
         if let Some(e) = &rep.machinery_error {
             mach = Some(format!("{}: {}", cfg.name, e));
         }
@@ -226,7 +229,11 @@ fn main() {
                 "C07" => check_seq("C07", tier),
                 "C08" => check_seq("C08", tier),
                 "C09" => check_c09::check(tier, nthreads()),
+                "C10" => check_c10::check(tier, nthreads()),
+                "C11" => check_seq("C11", tier),
+                "C19" => check_seq("C19", tier),
                 "C12" => check_c12::check(tier, nthreads()),
+                "C20" => check_c20::check(tier),
                 "C13" => check_c13::check(tier, nthreads()),
                 "C17" => check_c17::check(tier, nthreads()),
                 "C18" => check_c18::check(tier, nthreads()),
@@ -321,6 +328,7 @@ fn main() {
             println!("{} cuts, {} differ, {:.3}s", n, diff, t0.elapsed().as_secs_f64());
             0
         }
+        "serve" => check_c20::serve(args[2..].to_vec()),
         "replay" => replay(args.get(2).map(|s| s.as_str()).unwrap_or("")),
         _ => {
             eprintln!("unknown command");
